@@ -11,6 +11,7 @@ import (
 	"sort"
 	"strings"
 	"sync"
+	"sync/atomic"
 	"time"
 
 	"nriverif/internal/ev"
@@ -534,6 +535,85 @@ func runC06Instance(dir string, g *rand.Rand, masks []api.EventMask, R, nreq int
 	}
 }
 
+// c06AfterIdle: plugins that registered against a large runtime state (their snapshot is sent in several
+// messages) or a small one stay registered while the runtime is idle for longer than the request
+// timeout; every event issued afterwards reaches each of them exactly once.
+func c06AfterIdle(dir string, res *ev.Result, tag string) {
+	const reqTimeout = 1200 * time.Millisecond
+	adaptation.SetPluginRequestTimeout(reqTimeout)
+	defer adaptation.SetPluginRequestTimeout(60 * time.Second)
+	for _, big := range []bool{true, false} {
+		what := map[string]any{"scenario": "idle longer than the request timeout after registration", "state_sent_in_several_messages": big, "request_timeout_ms": reqTimeout.Milliseconds()}
+		d := fmt.Sprintf("%s/idle-%v", dir, big)
+		mkdirAll(d)
+		rt, err := rig.NewRuntime(d)
+		if err != nil {
+			res.Note("runtime: %v", err)
+			return
+		}
+		if big {
+			cs := &c09Case{Pods: rep(2, 100), Ctrs: rep(100, 50<<10)}
+			rt.SetState(c09State(cs, tag))
+		}
+		var syncErr atomic.Value
+		rt.SyncDone = func(_ []*api.ContainerUpdate, err error) {
+			if err != nil {
+				syncErr.Store(err)
+			}
+		}
+		if err := rt.Start(); err != nil {
+			res.Note("start: %v", err)
+			return
+		}
+		r := &c06Rig{rt: rt}
+		for pos, idx := range []string{"10", "20"} {
+			r.plugins = append(r.plugins, r.newPlugin(pos, idx, 0, false))
+		}
+		func() {
+			defer func() {
+				rt.Stop()
+				for _, p := range r.plugins {
+					p.p.StopStub()
+				}
+			}()
+			res.Eval()
+			for _, p := range r.plugins {
+				if err := p.p.Connect(rt.Sock); err != nil || !p.p.WaitSynced(20*time.Second) || syncErr.Load() != nil {
+					// on a starved machine the snapshot itself may not get through within the short timeout
+					res.Note("%s: registration did not complete under a %v request timeout: %v %v", tag, reqTimeout, err, syncErr.Load())
+					res.Inconcl()
+					return
+				}
+			}
+			time.Sleep(2*reqTimeout + 200*time.Millisecond)
+			for i, e := range allEvents {
+				id := fmt.Sprintf("%s-idle%v-%d", tag, big, i)
+				b := rt.A.BlockPluginSync()
+				_, err := c06Issue(rt.A, e, id)
+				b.Unblock()
+				if err != nil {
+					res.Violate("C06/unexpected-error", fmt.Sprintf("%s after an idle period failed: %v", e, err), what)
+				}
+				r.mu.Lock()
+				n := map[int]int{}
+				for _, inv := range r.log {
+					if inv.Req == id {
+						n[inv.Plugin]++
+					}
+				}
+				r.mu.Unlock()
+				for _, p := range r.plugins {
+					if n[p.pos] != 1 {
+						res.Violate("C06/missed-invocation/after-idle", fmt.Sprintf("plugin %s registered, was healthy and idle for %v (request timeout %v); it then received %s %d times (want 1)", p.idx, 2*reqTimeout, reqTimeout, e, n[p.pos]), what)
+						return
+					}
+				}
+			}
+			res.Seen(fmt.Sprintf("idle-after-registration|big%v", big))
+		}()
+	}
+}
+
 func subscribedWord(b bool) string {
 	if b {
 		return "subscribed"
@@ -576,6 +656,8 @@ func runC06(c *ev.ChildEnv, res *ev.Result) {
 		}
 	}
 	installAdaptationHook(hook)
+	c.WAL("idle scenario")
+	c06AfterIdle(c.Dir, res, fmt.Sprintf("c06b%d", c.Batch))
 	gm := rand.New(rand.NewPCG(uint64(c.Seed), 600)) // same mask list in every child
 	masks := c06Masks(c.Tier, gm)
 	g := rand.New(rand.NewPCG(uint64(c.Seed), uint64(c.Batch)+601))
